@@ -32,45 +32,84 @@ def members_encoders(model, codecs):
     return out
 
 
-def presence_violations(f):
+def presence_violations_in(f, cls, dname):
+    """presence_violations for f and for the helpers of the object / module that f hands the container `dname` to (one level), with
+    value tests in return expressions included (`return data[name] is not None`)."""
+    out = []
+    todo = [(f, dname)]
+    seen = set()
+    while todo:
+        g, dn = todo.pop()
+        if id(g) in seen:
+            continue
+        seen.add(id(g))
+        out.extend(presence_violations(g, dn))
+        for n in walk_no_nested(g):
+            # value tests outside an `if`: return / assignment of  <container>[..] is (not) None
+            if isinstance(n, (ast.Return, ast.Assign)) and n.value is not None:
+                for c in ast.walk(n.value):
+                    if isinstance(c, ast.Compare) and isinstance(c.ops[0], (ast.Is, ast.IsNot, ast.Eq, ast.NotEq)) and isinstance(c.comparators[0], ast.Constant) \
+                            and c.comparators[0].value is None and isinstance(c.left, (ast.Subscript, ast.Call)) \
+                            and isinstance(c.left.value if isinstance(c.left, ast.Subscript) else getattr(c.left.func, 'value', None), ast.Name) \
+                            and (c.left.value if isinstance(c.left, ast.Subscript) else c.left.func.value).id == dn:
+                        out.append((n, 'member presence is decided by comparing the value with None'))
+            if isinstance(n, ast.Call) and len(seen) < 6:
+                h = None
+                skip = 0
+                if isinstance(n.func, ast.Attribute) and isinstance(n.func.value, ast.Name) and n.func.value.id in ('self', 'cls') and cls is not None:
+                    r = cls.find_method(n.func.attr)
+                    h = r[1] if r else None
+                    skip = 0 if h is not None and any(isinstance(d, ast.Name) and d.id == 'staticmethod' for d in h.decorator_list) else 1
+                elif isinstance(n.func, ast.Name) and getattr(g, '_mod', None) is not None:
+                    r = g._mod.resolve_name(n.func.id)
+                    h = r if isinstance(r, ast.FunctionDef) else None
+                if h is None:
+                    continue
+                params = [a.arg for a in h.args.args][skip:]
+                for i, a in enumerate(n.args):
+                    if isinstance(a, ast.Name) and a.id == dn and i < len(params):
+                        todo.append((h, params[i]))
+    return out
+
+
+def presence_violations(f, dname='data'):
     """Presence of a SEQUENCE/SET member must be decided by membership (`name in data`), never by
     the value: None is the value of a present NULL, False/0/''/[] are ordinary values.
     Returns [(node, why)]."""
     bad = []
     for n in walk_no_nested(f):
         if isinstance(n, ast.Call) and isinstance(n.func, ast.Attribute) and n.func.attr in ('get', 'pop', 'setdefault') \
-                and isinstance(n.func.value, ast.Name) and n.func.value.id == 'data':
+                and isinstance(n.func.value, ast.Name) and n.func.value.id == dname:
             bad.append((n, 'data.%s(...) replaces the membership test' % n.func.attr))
     # `if not data[name]` / `if data[name] is None` / `if value is None` where value = data[...]
     from_data = set()
     for a in walk_no_nested(f):
         if isinstance(a, ast.Assign) and isinstance(a.targets[0], ast.Name):
             v = a.value
-            if (isinstance(v, ast.Subscript) and isinstance(v.value, ast.Name) and v.value.id == 'data') or \
-                    (isinstance(v, ast.Call) and isinstance(v.func, ast.Attribute) and isinstance(v.func.value, ast.Name) and v.func.value.id == 'data'):
+            if (isinstance(v, ast.Subscript) and isinstance(v.value, ast.Name) and v.value.id == dname) or \
+                    (isinstance(v, ast.Call) and isinstance(v.func, ast.Attribute) and isinstance(v.func.value, ast.Name) and v.func.value.id == dname):
                 from_data.add(a.targets[0].id)
     for n in walk_no_nested(f):
-        if isinstance(n, ast.If):
+        if isinstance(n, (ast.If, ast.IfExp, ast.While)):
             t = n.test
-            if isinstance(t, ast.UnaryOp) and isinstance(t.op, ast.Not):
-                t2 = t.operand
-            else:
-                t2 = t
-            parts = t2.values if isinstance(t2, ast.BoolOp) else [t2]
-            for p in parts:
-                if isinstance(p, ast.UnaryOp) and isinstance(p.op, ast.Not):
-                    p = p.operand
+            hit = False
+            for p in ast.walk(t):
                 if isinstance(p, ast.Compare) and isinstance(p.ops[0], (ast.Is, ast.IsNot, ast.Eq, ast.NotEq)) \
                         and isinstance(p.comparators[0], ast.Constant) and p.comparators[0].value is None:
                     l = p.left
                     if (isinstance(l, ast.Name) and l.id in from_data) or \
-                            (isinstance(l, ast.Subscript) and isinstance(l.value, ast.Name) and l.value.id == 'data') or \
-                            (isinstance(l, ast.Call) and isinstance(l.func, ast.Attribute) and isinstance(l.func.value, ast.Name) and l.func.value.id == 'data'):
-                        # only when the branch skips the member
-                        if any(isinstance(x, (ast.Continue, ast.Pass, ast.Return)) for x in n.body) or True:
-                            bad.append((n, 'member presence is decided by comparing the value with None'))
-                elif isinstance(p, ast.Name) and p.id in from_data and isinstance(t, ast.UnaryOp):
-                    bad.append((n, 'member presence is decided by the truth value of the member value'))
+                            (isinstance(l, ast.Subscript) and isinstance(l.value, ast.Name) and l.value.id == dname) or \
+                            (isinstance(l, ast.Call) and isinstance(l.func, ast.Attribute) and isinstance(l.func.value, ast.Name) and l.func.value.id == dname):
+                        hit = True
+            if hit:
+                bad.append((n, 'member presence is decided by comparing the value with None'))
+            # truth value of the member value:  if not value / if value  (value = data[...])
+            t2 = t.operand if isinstance(t, ast.UnaryOp) and isinstance(t.op, ast.Not) else None
+            if t2 is not None:
+                parts = t2.values if isinstance(t2, ast.BoolOp) else [t2]
+                for p in parts:
+                    if isinstance(p, ast.Name) and p.id in from_data:
+                        bad.append((n, 'member presence is decided by the truth value of the member value'))
     return bad
 
 
